@@ -161,6 +161,11 @@ class C07(Prop):
             e = documented.get(p["name"])
             if p["var_kw"]:
                 continue
+            if e is not None and f.get("brace_opts") and f["style"] == "google" and f["doc"][0] is e and e.get("typ") == "str":
+                # PyTorch-style option list: read as a Literal of the options, in the order written
+                if q.get("typ") != "Literal['cos', 'exp', 'step', 'linear']":
+                    fails.append({"what": "brace option list not read as a Literal in written order", "name": p["name"], "got": q.get("typ")})
+                continue
             if e is not None and irutil.prose_core(q.get("doc")) != irutil.prose_core(e["prose"]):
                 fails.append({"what": "docstring prose not attached to the parameter it names", "name": p["name"], "want": e["prose"], "got": q.get("doc")})
             if e is None and q.get("doc"):
@@ -194,6 +199,8 @@ class C07(Prop):
                 predicted = doc_names + [n for n in sig if n not in doc_names] + (["kwargs"] if "kwargs" in documented else [])
             if fl.get("doctrans") == predicted:
                 return "C07-D3-documented-parameters-come-first"
+        if f["style"] == "numpydoc" and f.get("trailer") and f["doc"]:
+            return "C07-numpydoc-trailing-section-read-as-parameters"
         if what == "signature default not carried" and "<ast." in str(fl.get("got")):
             p = [q for q in f["params"] if q["name"] == fl.get("name")]
             e = [d for d in f["doc"] if d["name"] == fl.get("name")]
